@@ -177,12 +177,51 @@ def strip_comments(text):
     return "".join(out)
 
 
-def hygiene():
-    """No Admitted/admit/Axiom/Parameter/… anywhere in the development (comments excluded).
-    Variable/Hypothesis are allowed only inside a Section."""
+def closure(prop_files, extra=()):
+    """.v files (relative to coq/) in the dependency closure of Props/<f>.v, from coq_makefile's
+    .Makefile.d; None if it cannot be determined (then everything is scanned)."""
+    dpath = os.path.join(COQ, ".Makefile.d")
+    try:
+        text = open(dpath).read().replace("\\\n", " ")
+    except OSError:
+        return None
+    deps = {}
+    for line in text.split("\n"):
+        if ":" not in line:
+            continue
+        lhs, rhs = line.split(":", 1)
+        srcs = [x[:-3] for x in rhs.split() if x.endswith(".vo")]
+        for t in lhs.split():
+            if t.endswith(".vo"):
+                deps.setdefault(t[:-3], set()).update(srcs)
+    todo = ["Props/" + f for f in prop_files] + [e[:-3] if e.endswith(".vo") else e for e in extra]
+    seen = set()
+    while todo:
+        x = todo.pop()
+        if x in seen:
+            continue
+        seen.add(x)
+        if x not in deps and not os.path.exists(os.path.join(COQ, x + ".v")):
+            continue
+        todo += list(deps.get(x, ()))
+    out = sorted(x + ".v" for x in seen if os.path.exists(os.path.join(COQ, x + ".v")))
+    return out or None
+
+
+def hygiene(prop_files=None, extra=()):
+    """No Admitted/admit/Axiom/Parameter/… in the development (comments excluded).
+    Variable/Hypothesis are allowed only inside a Section.  With prop_files: only the
+    dependency closure of those Props files (what the property's theorems rest on)."""
     bad = []
-    for d in SRC_DIRS:
-        for p in sorted(glob.glob(os.path.join(COQ, d, "*.v"))):
+    files = None
+    if prop_files:
+        files = closure(prop_files, extra)
+    if files is None:
+        files = []
+        for d in SRC_DIRS:
+            files += [os.path.relpath(p, COQ) for p in sorted(glob.glob(os.path.join(COQ, d, "*.v")))]
+    for d in [None]:
+        for p in [os.path.join(COQ, f) for f in files]:
             text = strip_comments(open(p).read())
             depth = 0
             for ln, line in enumerate(text.split("\n"), 1):
